@@ -86,7 +86,7 @@ func VH_C03_TagList() {
 	if last != "" {
 		q.Set("last", last)
 	}
-	nKind := vh.Choice("nKind", 3)
+	nKind := vh.Choice("nKind", 4)
 	nStr := ""
 	switch nKind {
 	case 1:
@@ -94,6 +94,10 @@ func VH_C03_TagList() {
 		q.Set("n", nStr)
 	case 2:
 		q.Set("n", "x")
+	case 3:
+		// numerals at and beyond the machine ranges and in odd notations: whether they
+		// count as a page size is not specified, the answer must be well-formed
+		q.Set("n", vhOddNumerals[vh.Choice("odd", len(vhOddNumerals))])
 	}
 	method := "GET"
 	rec := vhDo(s, method, "/v2/r/tags/list", q, nil, nil)
@@ -103,6 +107,10 @@ func VH_C03_TagList() {
 	vh.Assert(ok, "C03.list-body")
 	vh.Assert(vhIsPrefix(got, exp), "C03.list-prefix")
 	link := rec.HeaderMap.Get("Link")
+	if nKind == 3 {
+		vh.Cover("C03.list-odd-numeral")
+		return
+	}
 	if nKind != 1 {
 		// no usable n: the whole listing
 		vh.Assert(len(got) == len(exp) && link == "", "C03.list-full")
